@@ -336,7 +336,15 @@ func run(t *testing.T, tape *simrt.Tape) *common.Outcome {
 	// warm-up there is no goroutine baseline, so only the goroutine-left audit is dropped in these runs; the resource
 	// manager, raw-connection and after-Close audits do not need one.
 	cold := g.Int(4) == 3
-	o.Logf("security=%s psk=%v link=%d payload=%d shared-tcp=%v cold-start=%v plan: %s", secu, usePSK, mode, payload, shared, cold, p)
+	// shared-TCP runs: 0-2 inbound connections of ANOTHER kind reach B's listener first — an HTTP request line or a TLS
+	// ClientHello on a port where only the libp2p TCP transport registered: the demultiplexer classifies them, finds no
+	// listener for that kind and must give back what it took for them (scope, descriptor)
+	foreign := 0
+	if shared {
+		foreign = g.Int(3)
+	}
+	foreignKind := g.Int(2)
+	o.Logf("security=%s psk=%v link=%d payload=%d shared-tcp=%v cold-start=%v foreign-kind-connections=%d plan: %s", secu, usePSK, mode, payload, shared, cold, foreign, p)
 
 	var psk []byte
 	if usePSK {
@@ -469,6 +477,21 @@ func run(t *testing.T, tape *simrt.Tape) *common.Outcome {
 				return
 			}
 			base = goroutines()
+		}
+		for i := 0; i < foreign; i++ {
+			fc, err := n.Dialer("10.0.0.9").DialContext(context.Background(), "tcp", "10.0.0.2:4001")
+			if err != nil {
+				o.Trouble = "foreign-kind dial: " + err.Error()
+				return
+			}
+			if foreignKind == 0 {
+				fc.Write([]byte("GET / HTTP/1.1\r\nHost: x\r\n\r\n"))
+			} else {
+				fc.Write([]byte{0x16, 0x03, 0x01, 0x00, 0x2a, 0x01, 0x00, 0x00, 0x26, 0x03, 0x03})
+			}
+			o.Fault("foreign-kind-connection")
+			simrt.TimeSleep(time.Second)
+			fc.Close()
 		}
 		warmConns := len(n.Conns())
 
